@@ -62,16 +62,65 @@ def _num_sig(s):
 
 def _strict(kind, a, b):
     """exact document equality (idempotence); returns (sig, detail) of the first difference"""
-    if a == b and json.dumps(a, sort_keys=True, default=str) == json.dumps(b, sort_keys=True, default=str):
+    if a == b:
         return None
-    return Differ(kind, tolerant=False).diff(a, b) or ('', 'documents differ only in spelling of a value: '
+    return Differ(kind, tolerant=False).diff(a, b) or ('', 'documents differ (no path found): '
                                                        + json.dumps(a, sort_keys=True, default=str)[:200])
+
+
+_PROBE = """
+import sys, json, logging
+sys.path.insert(0, sys.argv[1])
+logging.disable(logging.CRITICAL)
+from gnpy.tools.convert_legacy_yang import legacy_to_yang, yang_to_legacy
+import oopt_gnpy_libyang as ly
+L = json.load(sys.stdin)
+try:
+    yang_to_legacy(legacy_to_yang(L))
+    print('OK')
+except ly.Error as e:
+    print('INVALID ' + (e.args[1][0].what if len(e.args) > 1 and e.args[1] else str(e)))
+"""
+
+
+def probe_in_child(L):
+    """Run legacy -> YANG -> legacy once in a child interpreter. The libyang binding can take the whole process down
+    (SIGSEGV) on some member orders of keyed-list entries; a pool worker dying would hang the run, so the tagged
+    'key-not-first' class is tried out of process first. Returns ('ok'|'invalid'|'crash', text)."""
+    import subprocess
+    import sys
+    from pbt.runner import _gnpy_root
+    try:
+        r = subprocess.run([sys.executable, '-W', 'ignore', '-c', _PROBE, _gnpy_root()], input=json.dumps(L),
+                           capture_output=True, text=True, timeout=120)
+    except subprocess.TimeoutExpired:
+        return 'crash', 'timeout'
+    out = r.stdout.strip().splitlines()
+    if r.returncode < 0:
+        return 'crash', f'signal {-r.returncode}'
+    if out and out[-1] == 'OK':
+        return 'ok', ''
+    if out and out[-1].startswith('INVALID '):
+        return 'invalid', out[-1][8:]
+    from pbt.runner import HarnessError
+    raise HarnessError(f'probe child failed rc={r.returncode}: {r.stderr[-600:]}')
 
 
 def conversions(ctx, kind, L, check_passthrough=True, feats=()):
     """validity, idempotence, round trip, pass-through. Returns (Y, C) (C None when Y is not usable)."""
     from gnpy.tools.convert_legacy_yang import legacy_to_yang, yang_to_legacy
     import oopt_gnpy_libyang as ly
+    moved = [f.split(':', 1)[1] for f in feats if f.startswith('key-not-first:')]
+    if moved:
+        # tagged class: one entry of a keyed list written with its key member(s) last (JSON objects are unordered)
+        status, text = probe_in_child(L)
+        if status == 'crash':
+            ctx.violation(f'crash:{kind}:key-not-first:{moved[0]}', f'interpreter died in yang_to_legacy(legacy_to_yang(L)): {text}')
+            return None, None
+        if status == 'invalid' and 'is missing its key' in text:
+            ctx.violation(f'invalid-yang:{kind}:key-not-first:{moved[0]}', text)
+            return None, None
+        # otherwise the child survived and the member order was accepted: carry on in process
     Y = legacy_to_yang(copy.deepcopy(L))
     Y2 = legacy_to_yang(copy.deepcopy(Y))
     r = _strict(kind, Y, Y2)
@@ -84,12 +133,7 @@ def conversions(ctx, kind, L, check_passthrough=True, feats=()):
         msgs = e.args[1] if len(e.args) > 1 else []
         what = msgs[0].what if msgs else str(e)
         where = msgs[0].where if msgs else ''
-        moved = [f.split(':', 1)[1] for f in feats if f.startswith('key-not-first:')]
-        if moved and 'is missing its key' in what:
-            # tagged class: one entry of a keyed list was written with its key member last (JSON objects are unordered)
-            ctx.violation(f'invalid-yang:{kind}:key-not-first:{moved[0]}', f'{what} @ {where}')
-        else:
-            ctx.violation(f'invalid-yang:{kind}:{_norm_msg(what)}', f'{what} @ {where}')
+        ctx.violation(f'invalid-yang:{kind}:{_norm_msg(what)}', f'{what} @ {where}')
         return Y, None
     try:
         C2 = yang_to_legacy(copy.deepcopy(C))
@@ -203,7 +247,7 @@ def check_aliases(ctx, L, eqpt, form):
 
 def run_equipment(case, ctx):
     from gnpy.core.exceptions import EquipmentConfigError
-    L = case['doc']
+    L = documents.canonical(case['doc'], case.get('key_last'))
     _labels(ctx, case, 'equipment')
     ctx.nontrivial(True)
     Y, C = conversions(ctx, 'equipment', L, feats=case.get('features', ()))
@@ -254,7 +298,8 @@ def compare_networks(ctx, na, nc):
 
 
 def run_topology(case, ctx):
-    L = case['doc']
+    L = documents.canonical(case['doc'], case.get('key_last'))
+    case = dict(case, eq=documents.canonical(case['eq']))
     _labels(ctx, case, 'topology')
     for el in L['elements']:
         ctx.label('element:' + el['type'])
@@ -271,7 +316,8 @@ def run_topology(case, ctx):
 
 def run_services(case, ctx):
     from gnpy.tools.json_io import requests_from_json, disjunctions_from_json
-    L = case['doc']
+    L = documents.canonical(case['doc'], case.get('key_last'))
+    case = dict(case, eq=documents.canonical(case['eq']))
     _labels(ctx, case, 'services')
     ctx.nontrivial(True)
     Y, C = conversions(ctx, 'services', L, feats=case.get('features', ()))
@@ -327,7 +373,7 @@ def semantics_small(ctx, kind, L, C):
 
 def run_small(case, ctx):
     kind = case['kind']
-    L = case['doc']
+    L = documents.canonical(case['doc'], case.get('key_last'))
     _labels(ctx, case, kind)
     ctx.label('kind:' + kind)
     ctx.nontrivial(True)
@@ -364,7 +410,7 @@ def run_seed(case, ctx):
     ctx.nontrivial(bool(documents_moves))
     netgen.reset_sim_params()
     Y, C = conversions(ctx, kind, L, check_passthrough=not documents_moves)
-    if C is None or documents_moves:
+    if C is None or documents_moves or excess:
         return
     # unmodified shipped files: loaders must build equal objects from both forms
     if kind == 'equipment':
@@ -396,7 +442,8 @@ def _propagate(eq_json, topo, src, dst):
 
 def run_propagation(case, ctx):
     import numpy as np
-    L = case['doc']
+    L = documents.canonical(case['doc'])
+    case = dict(case, eq=documents.canonical(case['eq']))
     ctx.label(f'class:{case["cls"]}')
     netgen.reset_sim_params()
     try:
